@@ -111,13 +111,14 @@ theorem discard_truncated (n : Int) (hn : 0 < n) (d : Array UInt8) (pos : Nat) (
   have h2 : ¬ pos + n.toNat ≤ d.size := by omega
   simp [P.bind, h1, h2]
 
-/-- From the regenerated symbol table: stream positioning happens in one place only — a single
-    object file references `fseek` (the one holding `sbdf_skip_bytes`, which falls back to reading),
-    and nothing references `ftell`, `rewind`, `fseeko`, `fsetpos`, `fgetpos` or `lseek`; so no skip
-    path can depend on a seekable stream behind the helper's back. -/
+/-- From the regenerated symbol table: stream positioning happens in one place only — all
+    references to a positioning call (`fseek`, `fseeko`, `fsetpos`, `rewind`, `lseek`) come from a
+    single object file (the one holding `sbdf_skip_bytes`, which falls back to reading), so no skip
+    path can depend on a seekable stream behind the helper's back.  (Position *queries* such as
+    `ftell` are not restricted.) -/
 theorem positioning_in_one_place :
-    (Gen.undefinedSyms.filter (fun p => p.2 = "fseek")).length ≤ 1 ∧
-    ∀ p ∈ Gen.undefinedSyms, p.2 ∉ ["ftell", "ftello", "rewind", "fseeko", "fsetpos", "fgetpos", "lseek", "lseek64"] := by
+    ((Gen.undefinedSyms.filter (fun p => p.2 ∈ ["fseek", "fseeko", "fseeko64", "fsetpos", "fsetpos64", "rewind", "lseek", "lseek64"])).map
+      (·.1)).eraseDups.length ≤ 1 := by
   decide
 
 /-- instances: skip = read for value arrays and whole table slices on a stream that cannot seek -/
